@@ -342,7 +342,13 @@ def hyp_search(strategy, check_fn, n_examples, seed, res: Result, known_sigs=fro
         for v in last["v"]:
             res.violation(**{k: v.get(k) for k in ("signature", "case", "expected", "observed", "note")})
     except hypothesis.errors.HypothesisException as e:
-        raise HarnessError(f"hypothesis: {type(e).__name__}: {e}")
+        if last.get("v"):
+            # e.g. Flaky: the case failed once and passed when Hypothesis repeated it - the failure that
+            # was observed is reported (for schedule-dependent behaviour that *is* the finding)
+            for v in last["v"]:
+                res.violation(**{**{k: v.get(k) for k in ("signature", "case", "expected", "observed")}, "note": (v.get("note") or "") + f" [{type(e).__name__}: not reproduced when repeated]"})
+        else:
+            raise HarnessError(f"hypothesis: {type(e).__name__}: {e}")
     return res
 
 
